@@ -159,6 +159,10 @@ def cases(tier, seed):
                 wkind="none", warm_baseline=True)
             C[-1]["opts"].update(n_validate=(3 if model == "poisson" else 2), float_strict=True)
         add(f"estimator.fit {model} 2x3 K=vec base=vec W=mat", model=model, m=2, n=3, rows=1, kkind="vec", bkind="vec", wkind="mat", via="estimator")
+        if model == "poisson":
+            # fewer sources than receptors: targets are out of gamut, so the registered per-sample weights decide the fit
+            add(f"estimator.fit {model} 3x2 K=vec base=vec W=mat (registered with the targets)", model=model, m=3, n=2, rows=2, kkind="vec", bkind="vec", wkind="mat", via="estimator")
+            C[-1]["opts"].update(n_validate=3)
         add(f"estimator.fit {model} 2x3 K=scalar base=scalar W=none", model=model, m=2, n=3, rows=1, kkind="scalar", bkind="scalar", wkind="none", via="estimator")
     C.append(dict(name="model dispatch", body="dispatch_case", kwargs={}, opts=dict(n_validate=1)))
     return C
